@@ -360,7 +360,8 @@ class QCow2Snapshot:
         self.id_str = self.qcow2.fh.read(self.header.id_str_size).decode()
         self.name = self.qcow2.fh.read(self.header.name_size).decode()
 
-        self.entry_size = self.qcow2.fh.tell() - offset
+        # Snapshot table entries are padded to a multiple of 8 bytes
+        self.entry_size = (self.qcow2.fh.tell() - offset + 7) & ~7
 
     def open(self) -> QCow2:
         disk = copy.copy(self.qcow2)
